@@ -123,6 +123,9 @@ fn run_body(inj: &mut InjectorPP, ops: &[String]) {
 pub fn run(a: &Args, out: &mut impl Write) {
     let mut r = Rng::new(a.seed);
     for _case in 0..a.n {
+        if crate::hist::too_many_timeouts() {
+            break;
+        }
         let lifetimes = r.range(1, 4);
         let scripts: Vec<Vec<String>> = (0..lifetimes).map(|_| gen_script(&mut r)).collect();
         let sc = scripts.clone();
